@@ -157,6 +157,21 @@ def check_result(out, las, base, junk_lines, tag, text, mode):
         out.fail("data-changed|" + tag, canon.show(d) + "\njunk=%r\n%s" % (junk_lines, text))
 
 
+def wrong_line_number(message, line, text):
+    """lasio's messages read `Line N (section ...): "<line>"`. When a message has that form, N must be the (1-based) number
+    of a line of the file that holds this text; a message of another form is not judged."""
+    import re
+
+    m = re.match(r"\s*Line (\d+) \(section .*?\): \"(.*)\"\s*$", message, re.S)
+    if not m or m.group(2).strip() != line.strip():
+        return None  # another form, or the message is about another line that merely contains this text
+    n = int(m.group(1))
+    where = [i + 1 for i, l in enumerate(text.split("\n")) if l.strip() == line.strip()]
+    if where and n not in where:
+        return "the message %r gives line %d, but %r stands on line(s) %r" % (message[:200], n, line, where[:6])
+    return None
+
+
 def run_oracle(out, base_text, junk_text, junk_lines, must_warn, read_kw, tag):
     base = read_text(base_text, **read_kw)
     if is_raised(base):
@@ -169,10 +184,21 @@ def run_oracle(out, base_text, junk_text, junk_lines, must_warn, read_kw, tag):
                  % (las, junk_lines, junk_text))
     else:
         check_result(out, las, base, junk_lines, tag, junk_text, "flag")
-        for ln in must_warn:
-            if not any(ln in r for r in records):
+        for ln in sorted(set(must_warn)):
+            naming = [r for r in records if ln in r]
+            if not naming:
                 out.fail("no-warning-for-skipped-line|" + tag, "junk line %r has neither '.' nor ':' but no warning names it; "
                          "warnings=%r\n%s" % (ln, records[:5], junk_text))
+            elif len(naming) < must_warn.count(ln):
+                # every skipped line is reported, also when the same text is skipped more than once
+                out.fail("fewer-warnings-than-skipped-lines|" + tag, "junk line %r stands %d times in the file but only %d warning(s) name it; "
+                         "warnings=%r\n%s" % (ln, must_warn.count(ln), len(naming), records[:5], junk_text))
+            else:
+                for r in naming:
+                    bad = wrong_line_number(r, ln, junk_text)
+                    if bad:
+                        out.fail("warning-names-wrong-line-number|" + tag, bad + "\n" + junk_text)
+                        break
     # without the flag
     las2 = read_text(junk_text, **read_kw)
     if is_raised(las2):
@@ -182,6 +208,14 @@ def run_oracle(out, base_text, junk_text, junk_lines, must_warn, read_kw, tag):
         elif not any(j.strip() and j.strip() in str(las2.exc) for j in junk_lines):
             out.fail("header-error-does-not-name-line|" + tag, "LASHeaderError message %r names none of the junk lines %r"
                      % (str(las2.exc), junk_lines))
+        else:
+            for j in junk_lines:
+                if j.strip() and j.strip() in str(las2.exc):
+                    bad = wrong_line_number(str(las2.exc), j.strip(), junk_text)
+                    if bad and not any(o.strip() != j.strip() and o.strip() and o.strip() in str(las2.exc) and
+                                       not wrong_line_number(str(las2.exc), o.strip(), junk_text) for o in junk_lines):
+                        out.fail("header-error-names-wrong-line-number|" + tag, bad + "\n" + junk_text)
+                    break
         out.cls("noflag-LASHeaderError")
     else:
         out.cls("noflag-success")
